@@ -151,6 +151,8 @@ fn real_main() {
 				props::c03::run(&mut out, &mut rng.fork(), thorough);
 				// inputs that are not regular files, between regular ones, in argument order
 				props::cli_extra::special_file_inputs(&mut out);
+				// standard input that is a regular file whose offset is not 0
+				props::cli_extra::c14_stdin_at_offset(&mut out, &mut rng.fork(), thorough);
 			}
 			"C08" => {
 				props::c08::run(&mut out, &mut rng.fork(), thorough);
